@@ -138,6 +138,7 @@ def extract_parser(chk, prog):
     L = Lexer()
     L.sep, L.P, L.L0, L.E, L.cur_in_la_fn = set(), {}, {}, {}, {}
     L.intro, L.fns = None, []
+    L.end = line_reader_specials(chk, prog, f, gl[0])
     # bytes of the line compared in the reader itself
     for (c, ld, ic) in byte_compares(f):
         base = resolve_ptr(prog, ld.ops[0], f.unit)
@@ -219,6 +220,51 @@ def extract_parser(chk, prog):
     L.intro = L.tok[0]["intro"] if L.tok else None
     L.inquote = set(L.tok[0]["inquote"]) if L.tok else set()
     return L
+
+
+def line_reader_specials(chk, prog, f_reader, gl_call):
+    """bytes that the line reader itself removes from the end of a line before the tokenizer sees it: the carriage return
+    in front of the line feed, and -- if the reader is asked to trim -- the whole isspace() class"""
+    import os
+    from ..controls import control_program
+    from ..build import repo_root
+    end = {}
+    g = prog.fn(gl_call.callee, f_reader.unit)
+    if g is None or isinstance(g, ExternFn) or g.decl:
+        raise AnalysisBroken("istream_get_line is not part of gensquashfs")
+    g.build()
+    chk.analysed(g)
+    for (c, ld, ic) in byte_compares(g):
+        if c in (13,):
+            end[c] = ic
+    cp = control_program("c16_enums.c", flags=("-I" + os.path.join(repo_root(), "include"), "-I" + repo_root()))
+    vals = None
+    for unit in cp.by_src.values():
+        gl = unit.globals.get("verif_line_flags")
+        if gl and gl.get("init"):
+            flat = []
+
+            def walk(x):
+                if isinstance(x, (list, tuple)):
+                    for y in x:
+                        walk(y)
+                elif isinstance(x, int):
+                    flat.append(x)
+            walk(gl["init"][1:] if isinstance(gl["init"][0], str) else gl["init"])
+            vals = flat
+    if not vals or len(vals) < 3:
+        raise AnalysisBroken("could not evaluate the ISTREAM_LINE_* flags")
+    LTRIM, RTRIM = vals[0], vals[1]
+    fl = gl_call.ops[3] if len(gl_call.ops) > 3 else None
+    trim_end = False
+    if fl is not None and fl.is_const and fl.is_int:
+        trim_end = bool(fl.uval & RTRIM)
+    elif fl is not None:
+        trim_end = True         # unknown flags: assume the worst
+    if trim_end:
+        for c in (9, 11, 12, 13, 32):
+            end.setdefault(c, gl_call)
+    return end
 
 
 def extract_printer(chk, prog):
@@ -314,6 +360,11 @@ def rule_classes(chk, L, Pr):
        "every byte the parser treats specially anywhere in a line %s triggers quoting" % show({c for c in L.P if c}),
        "the parser gives %s a special meaning (compared in %s) but the printer emits tokens containing it unquoted" % (
            show(miss), ", ".join(sorted(set(L.fns)))))
+    miss = set(L.end) - T
+    ob("A2-class", "O11:line-end", not miss, (L.end[sorted(miss)[0]] if miss else anyp),
+       "bytes the line reader strips from the end of a line %s all trigger quoting, so they are never the last byte of a line" % show(set(L.end)),
+       "the line reader removes %s from the end of a line, but the printer writes a token ending in it unquoted as the last thing on "
+       "the line: the byte is lost (symlink targets, file locations)" % show(miss))
     inq = set(L.inquote)
     miss = inq - X
     ob("A2-class", "O3:in-quote", not miss and bool(inq), list(Pr.X.values())[0] if Pr.X else Pr.fns[0],
@@ -392,6 +443,23 @@ def rule_keywords(chk, prog_r, prog_g, L, Pr):
                     p = strip_casts(x.ops[0])
                     if p.is_inst and p.op == "getelementptr" and p.field() and p.field()[1] == "count":
                         need = i.ops[1].sval
+    # O10: the two numbers are split off the device number by the C library's major()/minor(), the inverse of the makedev()
+    # the parser combines them with
+    if fmt:
+        sp = fmt[1]
+        fx = sp.bb.fn
+        num_args = [a for a in sp.ops if getattr(a, "ty", "") in ("i32", "i64") and not a.is_const]
+        split = [a for a in num_args if any(x.is_inst and x.op == "call" and norm_callee(x.callee) in ("gnu_dev_major", "gnu_dev_minor")
+                                            for x in backward_slice(a, phi_control=False, limit=60))]
+        comb = dev is not None and any(norm_callee(x.callee) == "gnu_dev_makedev" for x in dev.build().calls())
+        if comb and len(split) >= 2:
+            chk.ok("A2-keyword", "O10:devno", sp, "device numbers are split with major()/minor() and combined with makedev()")
+        elif comb:
+            chk.violation("A2-keyword", "O10:devno", sp, "the parser combines major and minor with makedev(), but the printer does not "
+                          "split the device number with major()/minor(): the two ends need not be inverse to each other (e.g. minors "
+                          "above 255 / 65535 are cut differently)")
+        else:
+            chk.note("A2-keyword O10: the parser does not use makedev(); agreement of the device number encoding not decided")
     if fmt and need is not None:
         n = len(fmt[0].split())
         if n == need:
@@ -629,6 +697,6 @@ def run(chk):
     rule_classes(chk, L, Pr)
     rule_keywords(chk, pr, pg, L, Pr)
     rule_emissions(chk, pr, Pr, L)
-    chk.floor("A2-class", 5)
+    chk.floor("A2-class", 6)
     chk.floor("A2-keyword", 6)
     chk.floor("A2-emit", 1)
